@@ -1353,7 +1353,8 @@ class SubElementTextListProperty(_ElementListProperty):
         for val in py_value:
             child = etree.SubElement(node, self._sub_element_name)
             try:
-                child.text = val
+                # values that are no strings (e.g. int for msg:NumberOfLines) are written in their lexical form
+                child.text = val if isinstance(val, str) else str(val)
             except TypeError as ex:
                 # re-raise with better info about data
                 raise TypeError(f'{ex} in {self}') from ex  # noqa: EM102
